@@ -137,6 +137,14 @@ func init() {
 		return p
 	}
 	// recorder workload: the real event recorder fed through its public channels
+	vfExtraOps["rec_savefail"] = func(w *vfWorld, st vfStep, p *vfPrepared) *vfPrepared {
+		p.env = func() { w.recSaveBlock(true) }
+		return p
+	}
+	vfExtraOps["rec_saveheal"] = func(w *vfWorld, st vfStep, p *vfPrepared) *vfPrepared {
+		p.env = func() { w.recSaveBlock(false) }
+		return p
+	}
 	vfExtraOps["rec_event"] = func(w *vfWorld, st vfStep, p *vfPrepared) *vfPrepared {
 		p.env = func() { w.recEvent(st) }
 		return p
@@ -350,6 +358,13 @@ func (w *vfWorld) recEvent(st vfStep) {
 // the model's view of what a completed save contains
 func (w *vfWorld) recAdvanceModel() {
 	if w.recDirty && time.Since(w.recLastEvent) >= 5*time.Second {
+		if w.recBlockOn && !w.recBlockFrom.After(w.recLastEvent.Add(5*time.Second)) {
+			// the save attempt found the disk refusing: nothing was written and the timer is spent; the next event
+			// arms it again and the save after that one carries everything
+			w.recDirty = false
+			w.probe("recorder-save-failed")
+			return
+		}
 		w.recSaved = append([]vfRecModelEvent(nil), w.recLive...)
 		w.recDirty = false
 		w.recSavedOnce = true
@@ -471,11 +486,30 @@ func (w *vfWorld) recCompareLive(got eventrecorder.EventsMap) {
 	}
 }
 
+// recSaveBlock: the directory entry the recorder's next save needs (<file>~) is taken by a directory, so creating the
+// temporary file fails - a disk that refuses writes for a while.  No hook: the real fsutil.CreateRenamingWriter fails.
+func (w *vfWorld) recSaveBlock(on bool) {
+	if w.rec == nil || w.recBlockOn == on {
+		return
+	}
+	w.recAdvanceModel()
+	if on {
+		if os.Mkdir(w.recFile+"~", 0o755) == nil {
+			w.recBlockOn, w.recBlockFrom = true, time.Now()
+			w.fault("disk.recorder.save.error")
+		}
+		return
+	}
+	os.Remove(w.recFile + "~")
+	w.recBlockOn = false
+}
+
 // recCrash: the monitoring daemon is killed now and restarted from its file
 func (w *vfWorld) recCrash() {
 	if w.rec == nil {
 		return
 	}
+	w.recSaveBlock(false)
 	w.recAdvanceModel()
 	w.fault("proc.crash")
 	// The old recorder's goroutine is abandoned (it has no exit path) and, unlike a killed
@@ -528,7 +562,23 @@ func genEventsPlan(r *rand.Rand, tier string) *vfPlan {
 		add(vfStep{Op: "quiesce_daemon"})
 		n := 4 + r.IntN(10)
 		long := 0
-		if chance(r, 0.2) {
+		if chance(r, 0.15) {
+			// the disk refuses one save; it recovers, more events arrive, the daemon is restarted later: nothing recorded
+			// before or after the failed save may be missing
+			for k := 0; k < 1+r.IntN(3); k++ {
+				add(vfStep{Op: "rec_event", User: pick(r, users), A: pick(r, []string{"auth", "ssh", "x509"}), N: int64(r.IntN(8))})
+			}
+			add(vfStep{Op: "rec_savefail"})
+			add(vfStep{Op: "advance", D: pick(r, []string{"6s", "8s", "1m"})})
+			add(vfStep{Op: "rec_saveheal"})
+			for k := 0; k < 1+r.IntN(3); k++ {
+				add(vfStep{Op: "rec_event", User: pick(r, users), A: pick(r, []string{"auth", "weblogin", "x509"}), N: int64(r.IntN(8))})
+				add(vfStep{Op: "advance", D: pick(r, []string{"1s", "6s"})})
+			}
+			add(vfStep{Op: "advance", D: "6s"})
+			add(vfStep{Op: "rec_check"})
+			n = 2 + r.IntN(4)
+		} else if chance(r, 0.2) {
 			// one user's oldest entries pass the retention while newer ones of the same user stay: the hourly sweep
 			// has to unlink from the old end of a list that does not become empty
 			u := pick(r, users)
